@@ -42,10 +42,62 @@ def specs(shape):
     return out
 
 
+_SHAPE_MS = MethodSet([
+    dict(pos=[("x", ("K", 0), False)]),                                        # h0(x: K0)
+    dict(pos=[("name", ("K", 1), False)]),                                     # h1(name: K1): another name at the first position
+    dict(pos=[("x", ("K", 0), False), ("y", ("obj",), True)]),                 # h2(x: K0, y=default): an optional positional
+    dict(pos=[("x", ("obj",), False)], kw=[("k", ("obj",), True)]),            # h3(x: object, *, k=default): a keyword-only parameter
+])
+
+
+def make_run_shapes(W, shape):
+    """methods that shape the entry point differently (names of the positionals, an optional positional, a keyword-only parameter) come and
+    go: after every operation the function must accept and reject the same CALL SHAPES as one built afresh from the remaining methods"""
+    from ovld import Ovld
+
+    ops = shape["ops"]
+
+    def run(ctx):
+        a0, a1 = W.inst[0], W.inst[1]
+        calls = [("f(K0())", lambda f: f(a0)), ("f(x=K0())", lambda f: f(x=a0)), ("f(K0(), K1())", lambda f: f(a0, a1)),
+                 ("f(K0(), k=K1())", lambda f: f(a0, k=a1)), ("f(name=K1())", lambda f: f(name=a1)), ("f(K1())", lambda f: f(a1)),
+                 ("f(x=K0(), y=K1())", lambda f: f(x=a0, y=a1))]
+        hs, LOG, ns = _SHAPE_MS.instantiate(W)
+        ov = Ovld()
+        live, trace, ok = [], [], True
+        for i, (op, m) in enumerate(ops):
+            if op == "reg":
+                ov.register(hs[m], priority=0)
+                live.append(m)
+            else:
+                ov.unregister(hs[m])
+                live.remove(m)
+            if not live:
+                continue
+            hs2, LOG2, ns2 = _SHAPE_MS.instantiate(W)
+            ref = Ovld()
+            for mm in live:
+                ref.register(hs2[mm], priority=0)
+            for label, call in calls:
+                got = full_outcome(lambda: call(ov.dispatch), LOG)
+                exp = full_outcome(lambda: call(ref.dispatch), LOG2)
+                # (rejections are compared by kind: the wording names the function)
+                g = (got[0], got[1][:1] if got[1][0] == "EXC" else got[1])
+                e = (exp[0], exp[1][:1] if exp[1][0] == "EXC" else exp[1])
+                if g != e:
+                    ok = False
+                    trace.append(dict(after=f"{op} h{m}", live=list(live), call=label, got=got, fresh=exp))
+        return Verdict(ok, (), dict(api="Ovld, call shapes", ops=ops, differences=trace[:6]), [f"ops{len(ops)}"], nontrivial=True)
+
+    return run
+
+
 def make_run(W, shape, known_active=None):
     from ovld import MultiTypeMap, Ovld
     from ovld.core import Signature
 
+    if shape["api"] == "ovld-shapes":
+        return make_run_shapes(W, shape)
     n = shape["n"]
     pool = shape["pool"]
     M = len(pool)
@@ -211,6 +263,13 @@ def gen_shapes(tier, seed):
         for p in mt_pools:
             for h in Hm:
                 shapes.append(dict(n=n, api="mtm", pool=p, ops=h))
+    for h in (H4 if tier == "quick" else H4 + H5):
+        if any(op == "unreg" for op, _ in h):
+            shapes.append(dict(n=n, api="ovld-shapes", pool=[], ops=h))
+    if tier == "quick":
+        keep = [sh for sh in shapes if sh["api"] == "ovld-shapes"]
+        rng.shuffle(keep)
+        shapes = [sh for sh in shapes if sh["api"] != "ovld-shapes"] + keep[:150]
     for sh in shapes:
         sh["probes"] = [rng.randrange(4) for _ in sh["ops"]]
     return shapes, total, True
@@ -235,6 +294,8 @@ def main(tier, seed):
         PID, tier, seed, t0, results,
         bounds=dict(classes=3, pool="4 candidate methods (one duplicating another's signature and priority)", positions=1,
                     history_length="4-5 register/unregister operations (Ovld); 3-4 registrations (MultiTypeMap)",
+                    call_shapes="a family whose four methods shape the entry point differently (another positional name, an optional positional, a keyword-only "
+                                "parameter): after every operation seven call shapes (positional / by keyword) are compared with a fresh build",
                     linked="a family in which the operations are applied to a parent that is never called itself and the probes go to a linkback copy of it",
                     probes="after each operation: one of K0 / K1 / object() / none (enumerated with the history, sampled); after the last: all three",
                     bodies="return | call_next(x) | recurse(other instance) | recurse(a class) next to a late type[K] method", priorities="unbounded integers (symbolic)",
